@@ -375,7 +375,7 @@ impl Chain {
         }
         let mut deleg = vec![];
         for v in VALS.iter() {
-            if self.deleg_of(*v) != 0 {
+            if self.deleg.contains_key(v) {
                 deleg.push(format!("{}:{}", v, self.deleg_of(*v)));
             }
         }
